@@ -23,6 +23,8 @@ NOTES = {
  "C10-c": "missed by the C10 check at first (reported by C11 through its proxy mutation stream); caught after C10 also runs proxy-family cases with the upstream still connected at the teardown",
  "C08-c": "missed at first (one handler object per request); caught after family `fsm` (2-6 requests through ONE FilesystemHandler)",
  "C09-c": "missed at first (wrong passwords differed by a few bytes); caught after wrong passwords longer by 255/256/257/512/768 bytes were added",
+ "C15-c": "missed at first (no half-close or reset while the body was incomplete); caught after the generator gained peer FIN / reset after the complete head",
+ "C20-c": "missed at first (complete TLS configuration only); caught after family `tls` gained incomplete configurations (chain without key, unloadable key, protocol only)",
  "C06-b": "caught on the first run, thanks to the refusal styles (silent / own fragment without close) added to model, spec and harness beforehand",
 }
 rows = []
